@@ -2,6 +2,7 @@
 use crate::checks::nav::*;
 use crate::common::*;
 use crate::gen::ast::*;
+use crate::gen::layout::*;
 use crate::gen::refsem::EntKind;
 use crate::lsptext;
 use crate::progs;
@@ -57,8 +58,66 @@ pub fn decode(data: &[u64]) -> Result<Vec<STok>, String> {
 }
 
 fn request_tokens(text: &str) -> Result<Vec<STok>, String> {
+    request_tokens_after(None, text)
+}
+
+/// the one ranged edit (common prefix / suffix removed) that turns `old` into `new`, as byte
+/// range of `old` and replacement
+pub fn single_edit_bytes(old: &str, new: &str) -> (usize, usize, String) {
+    let mut p = old.bytes().zip(new.bytes()).take_while(|(a, b)| a == b).count();
+    while !old.is_char_boundary(p) || !new.is_char_boundary(p) {
+        p -= 1;
+    }
+    let mut q = old[p..].bytes().rev().zip(new[p..].bytes().rev()).take_while(|(a, b)| a == b).count();
+    while !old.is_char_boundary(old.len() - q) || !new.is_char_boundary(new.len() - q) {
+        q -= 1;
+    }
+    // do not cut a CR LF pair apart: positions between the two do not exist in LSP
+    let mut oe = old.len() - q;
+    let mut ne = new.len() - q;
+    if old[..oe].ends_with('\r') && old[oe..].starts_with('\n') {
+        oe += 1;
+        ne += 1;
+    }
+    let mut ps = p;
+    if old[..ps].ends_with('\r') && old[ps..].starts_with('\n') {
+        ps -= 1;
+    }
+    (ps, oe, new[ps..ne].to_string())
+}
+
+pub fn single_edit(old: &str, new: &str) -> Value {
+    let (ps, oe, t) = single_edit_bytes(old, new);
+    let (l1, c1) = lsptext::position(old, ps);
+    let (l2, c2) = lsptext::position(old, oe);
+    json!({"range": {"start": {"line": l1, "character": c1}, "end": {"line": l2, "character": c2}}, "text": t})
+}
+
+/// C01's business: does the incremental analysis of that edit produce the tokens and the tree
+/// of a fresh analysis? (Where it does not, stale answers are consequences of C01's finding.)
+pub fn incremental_tree_agrees(old: &str, new: &str) -> bool {
+    let (a, b, t) = single_edit_bytes(old, new);
+    let (o, n) = (old.to_string(), new.to_string());
+    guarded(move || {
+        let inc = spl_frontend::AnalyzedSource::new(o).update(vec![spl_frontend::TextChange { range: a..b, text: t }]);
+        let fresh = spl_frontend::AnalyzedSource::new(n);
+        inc.tokens == fresh.tokens && inc.ast == fresh.ast
+    })
+    .unwrap_or(false)
+}
+
+/// tokens of `text`; with `previous`: the document is opened as `previous`, asked for its
+/// tokens, and then changed into `text` by one ranged edit
+fn request_tokens_after(previous: Option<&str>, text: &str) -> Result<Vec<STok>, String> {
     let mut s = Session::new(false);
-    s.open(URI, text);
+    match previous {
+        None => s.open(URI, text),
+        Some(p) => {
+            s.open(URI, p);
+            s.request("textDocument/semanticTokens/full", doc_request_params("textDocument/semanticTokens/full", URI));
+            s.change(URI, json!([single_edit(p, text)]));
+        }
+    }
     let id = s.request("textDocument/semanticTokens/full", doc_request_params("textDocument/semanticTokens/full", URI));
     let o = s.run();
     if let Some(e) = o.error.clone().or(o.frame_error.clone()) {
@@ -171,7 +230,23 @@ pub fn expected(doc: &Doc) -> Vec<STok> {
 }
 
 pub fn eval_doc(doc: &Doc) -> Vec<Failure> {
-    let got = match request_tokens(doc.text()) {
+    eval_doc_after(doc, None)
+}
+
+/// `previous`: the text the document had before one edit turned it into `doc`
+pub fn eval_doc_after(doc: &Doc, previous: Option<&str>) -> Vec<Failure> {
+    let mut fails = eval_doc_inner(doc, previous);
+    if let Some(p) = previous {
+        for f in fails.iter_mut() {
+            f.key = format!("{}:after-edit", f.key);
+            f.case["previous_text"] = json!(p);
+        }
+    }
+    fails
+}
+
+fn eval_doc_inner(doc: &Doc, previous: Option<&str>) -> Vec<Failure> {
+    let got = match request_tokens_after(previous, doc.text()) {
         Ok(g) => g,
         Err(e) => return vec![Failure { key: "semtok:error".into(), case: doc.case(Value::Null), detail: e }],
     };
@@ -255,6 +330,40 @@ pub fn run(tier: Tier) -> Report {
             out
         })
         .collect();
+    // one edit earlier the document had no / one more comment: a comment line is inserted into
+    // (removed from) every gap of the focus declaration of the opened document, then the tokens
+    // are requested (comment-only edits must not leave anything stale behind)
+    let hist: Vec<Failure> = items
+        .par_iter()
+        .enumerate()
+        .filter(|(i, it)| it.family == "scenario-permutations" || i % tier.pick(5, 1) == 0)
+        .flat_map_iter(|(i, it)| {
+            let pr = print_program(&it.program);
+            let mut out: Vec<Failure> = vec![];
+            let layout = [Layout::Pretty, Layout::Crlf, Layout::Spaces][i % 3];
+            let plain = Doc::new(it, layout, vec![]);
+            let gaps = crate::checks::c04::focus_gaps(&pr, it.focus_decl);
+            for g in gaps.into_iter().step_by(tier.pick(2, 1)) {
+                let with = Doc::new(it, layout, vec![g]);
+                let mut fs = vec![];
+                if incremental_tree_agrees(plain.text(), with.text()) {
+                    evals.fetch_add(1, Ordering::Relaxed);
+                    fs.extend(eval_doc_after(&with, Some(plain.text())));
+                }
+                if incremental_tree_agrees(with.text(), plain.text()) {
+                    evals.fetch_add(1, Ordering::Relaxed);
+                    fs.extend(eval_doc_after(&plain, Some(with.text())));
+                }
+                for f in fs {
+                    if !out.iter().any(|o| o.key == f.key) {
+                        out.push(f);
+                    }
+                }
+            }
+            out
+        })
+        .collect();
+    fails.extend(hist);
     let classified = evals.load(Ordering::Relaxed);
     // well-formedness on arbitrary documents
     let toks = Strings::new(SIGMA_TOK, tier.pick(3, 4));
@@ -292,7 +401,7 @@ pub fn run(tier: Tier) -> Report {
 
 pub fn replay(case: &Value) -> Vec<Failure> {
     let t = case["text"].as_str().unwrap_or("");
-    match request_tokens(t) {
+    match request_tokens_after(case["previous_text"].as_str(), t) {
         Err(e) => vec![Failure { key: "semtok:error".into(), case: case.clone(), detail: e }],
         Ok(g) => {
             let mut out: Vec<Failure> = well_formed(t, &g).err().map(|(k, d)| vec![Failure { key: format!("semtok:ill-formed:{}", k), case: case.clone(), detail: d }]).unwrap_or_default();
